@@ -208,12 +208,67 @@ fn main() {
                         let (v0, v1) = (engine_verdict(&e, &req), engine_verdict(&e2, &req));
                         if v0 != v1 {
                             // does z cancel something else by an id collision (F20)?
-                            let class = zf.as_ref().and_then(|zf| rules.iter().find(|f| f20_collision(f, zf)).map(|_| "F20_filter_id_concat"));
+                            let class: Option<&str> = None; // F20 (filter/hostname concatenation) is repaired: no carve-out
+                            let _ = &zf;
                             sm.failure(class, &format!("adding {} and {} changed the verdict from {:?} to {:?}", y, z, v0, v1),
                                 json!({"kind": "badfilter_pair", "rules": lines, "added": [y, z], "tags": tags, "url": url, "source": src, "type": ty}));
                         }
                     }
                 }
+            }
+        }
+    }
+    // near twins: z' differs from y in exactly one matching-relevant aspect (one type, the party
+    // option, one entry of the domain list, its sign, important, one pattern byte): z'$badfilter must
+    // cancel nothing, i.e. engine(L ++ [y, z']) answers like engine(L ++ [y]).  Independent of the
+    // crate's own id function (which the rule-by-rule specification above has to use).
+    for _ in 0..(300 * a.scale) {
+        let pat = gen::pattern(&mut r);
+        if pat.is_empty() { continue }
+        let mut opts: Vec<String> = vec![];
+        if r.chance(1, 2) { opts.push(r.pick(&["script", "image", "xhr", "~script", "font"]).to_string()); }
+        if r.chance(1, 3) { opts.push(r.pick(&["third-party", "~third-party"]).to_string()); }
+        let doms: Vec<String> = if r.chance(2, 3) {
+            let n = r.range(1, 3);
+            (0..n).map(|_| { let d = r.pick(gen::DOMAINS); if r.chance(1, 3) { format!("~{}", d) } else { d.to_string() } }).collect()
+        } else { vec![] };
+        let line = |pat: &str, opts: &[String], doms: &[String]| {
+            let mut o: Vec<String> = opts.to_vec();
+            if !doms.is_empty() { o.push(format!("domain={}", doms.join("|"))); }
+            if o.is_empty() { pat.to_string() } else { format!("{}${}", pat, o.join(",")) }
+        };
+        let y = line(&pat, &opts, &doms);
+        // one edit
+        let (mut p2, mut o2, mut d2) = (pat.clone(), opts.clone(), doms.clone());
+        let what = match r.below(7) {
+            0 => { o2.push(r.pick(&["media", "object", "ping"]).to_string()); "type added" }
+            1 => { if o2.iter().any(|x| x.contains("third-party")) { o2.retain(|x| !x.contains("third-party")); } else { o2.push("third-party".into()); } "party option toggled" }
+            2 if !d2.is_empty() => { let k = r.below(d2.len()); d2[k] = if d2[k].starts_with('~') { d2[k][1..].to_string() } else { format!("~{}", d2[k]) }; "sign of one domain flipped" }
+            3 if !d2.is_empty() => { let k = r.below(d2.len()); let neg = d2[k].starts_with('~'); d2[k] = format!("{}{}", if neg { "~" } else { "" }, r.pick(&["other.org", "zz.net"])); "one domain replaced" }
+            4 => { d2.push(if r.chance(1, 2) { "~extra.org".to_string() } else { "extra.org".to_string() }); "domain added" }
+            5 => { o2.push("important".into()); "important added" }
+            _ => { p2.push('x'); "pattern byte added" }
+        };
+        let z = with_badfilter(&line(&p2, &o2, &d2));
+        let (Some(yf), Some(zf)) = (parse_net(&y), parse_net(&z)) else { continue };
+        let (dy, dz) = (dump_filter(&yf), dump_filter(&zf));
+        if !zf.is_badfilter() || yf.is_badfilter() { continue }
+        // same matching fields after parsing (e.g. `image` added to a rule that had it): not a near twin
+        let bad_bit = adblock::filters::network::NetworkFilterMask::BAD_FILTER.bits();
+        if (dy.mask, &dy.filter, &dy.hostname, &dy.opt_domains, &dy.opt_not_domains) == (dz.mask & !bad_bit, &dz.filter, &dz.hostname, &dz.opt_domains, &dz.opt_not_domains) { continue }
+        let e1 = build_engine(&[y.clone()], &[], false);
+        let e2 = build_engine(&[y.clone(), z.clone()], &[], false);
+        for _ in 0..3 {
+            let Some((url, _src, ty, _)) = clean_request(&mut r, &[y.clone()]) else { continue };
+            // a source the rule's domain list accepts, when it has one
+            let src = match doms.iter().find(|d| !d.starts_with('~')) { Some(d) if r.chance(3, 4) => format!("https://{}/page", d), _ => "https://elsewhere.example/".to_string() };
+            let Ok(req) = adblock::request::Request::new(&url, &src, ty) else { continue };
+            sm.oracle_evaluations += 1;
+            let (v1, v2) = (engine_verdict(&e1, &req), engine_verdict(&e2, &req));
+            if v1.matched { cs.stat("near_twin_rule_matches"); }
+            if v1 != v2 {
+                sm.failure(None, &format!("{} is cancelled by {} ({}): verdict {:?} -> {:?}", y, z, what, v1, v2),
+                    json!({"kind": "badfilter_pair", "rules": [y], "added": [z], "tags": [], "url": url, "source": src, "type": ty}));
             }
         }
     }
@@ -227,7 +282,8 @@ fn main() {
         let (v0, v1) = (engine_verdict(&build_engine(&lines, &[], false), &req), engine_verdict(&build_engine(&all, &[], false), &req));
         sm.oracle_evaluations += 1;
         if v0 != v1 {
-            sm.failure(Some("F20_filter_id_concat"), "||.com/adx$badfilter cancels ||x.com/ad (filter and hostname are hashed back to back)",
+            // was the known class F20_filter_id_concat; repaired in /repo b71a5fe: a regression is a violation
+            sm.failure(None, "||.com/adx$badfilter cancels ||x.com/ad (filter and hostname are hashed back to back)",
                 json!({"kind": "badfilter_pair", "rules": lines, "added": added, "tags": [], "url": "https://x.com/ad", "source": "https://a.com/", "type": "script"}));
         }
     }
